@@ -25,7 +25,8 @@ def gen_word(table, row, rng, cond=None, tries=60):
                 v = reglist(rng, k)
             else:
                 r = rng.random()
-                v = 0 if r < 0.15 else ((1 << k) - 1 if r < 0.3 else (1 if r < 0.4 else (1 << (k - 1) if r < 0.5 else rng.getrandbits(k))))
+                v = 0 if r < 0.15 else ((1 << k) - 1 if r < 0.3 else (1 if r < 0.4 else (1 << (k - 1) if r < 0.5 else (
+                    rng.choice((2, 3, 4, 8, 12)) & ((1 << k) - 1) if r < 0.58 and k >= 3 else rng.getrandbits(k)))))
             for i, b in enumerate(bits_):
                 if (v >> (k - 1 - i)) & 1:
                     w |= 1 << b
